@@ -23,7 +23,7 @@ ALT_MNEMONIC = {"ldr": "ldur", "ldrb": "ldurb", "ldrh": "ldurh", "ldrsb": "ldurs
 # LDP/STP encoding class of the assembler: write-back addressing with a zero offset is emitted as the plain signed-offset word
 PAIR_NAMES = {"ldp", "stp", "ldpsw", "stgp"}
 INVERTIBLE = {"SGp", "SImmU", "SImmS", "SCond", "SRel", "SMemBase", "SMemOff", "SMemLit", "SShift", "SVec", "SVecElem",
-              "SGpDup", "SImmLt", "SSysReg", "SImmConst", "SMemPostImm", "SMemPostReg", "SMemIdx", "SMemPair", "SGpPair", "SSysOp", "SImmRsub", "SFpImm"}
+              "SGpDup", "SImmLt", "SSysReg", "SImmConst", "SMemPostImm", "SMemPostReg", "SMemIdx", "SMemPair", "SGpPair", "SSysOp", "SImmRsub", "SFpImm", "SVecListElem", "SImmAff"}
 INV_COND = {"cinc", "cinv", "cneg", "cset", "csetm"}
 
 
@@ -222,6 +222,13 @@ def parse_ops(r):
             syn.append(("SVecList", int(mv.group(1)), rt, et, "V" + mv.group(2)))
             i += 1
             continue
+        mv = re.match(r"^([2-4])x\{V([a-z]+\d?)\.([BHSD])\}\+?\[#(\w+)\]$", o)
+        if mv and ("V" + mv.group(2)) in F and fwidth(r, "V" + mv.group(2)) == 5 and mv.group(4) in F:
+            et, lanes = ELEM[mv.group(3)]
+            wi = fwidth(r, mv.group(4))
+            syn.append(("SVecListElem", int(mv.group(1)), et, "V" + mv.group(2), mv.group(4), wi, min(lanes, 1 << wi)))
+            i += 1
+            continue
         if o == "[Xn|SP, Xm]@" and "Rm" in F:
             syn.append(("SMemPostReg", need("Rn"), "Rm"))
             i += 1
@@ -317,6 +324,16 @@ def parse_ops(r):
             continue
         if o == "#barrier_op" and "CRm" in F and "barrier_op" not in F:      # DMB / DSB: the option is the CRm field
             syn.append(("SImmU", "CRm", fwidth(r, "CRm"), 1))
+            imm = ""
+            i += 1
+            continue
+        if o == "#rotate" and re.match(r"^ASimdRotateImm_0_90_180_270\(rotate\)$", imm) and "imm" in F and fwidth(r, "imm") == 2:
+            syn.append(("SImmU", "imm", 2, 90))      # FCMLA: rotation 0 / 90 / 180 / 270 degrees = imm * 90
+            imm = ""
+            i += 1
+            continue
+        if o == "#rotate" and re.match(r"^ASimdRotateImm_90_270\(rotate\)$", imm) and "imm" in F and fwidth(r, "imm") == 1:
+            syn.append(("SImmAff", "imm", 1, 90, 180))      # FCADD: rotation 90 / 270 degrees = 90 + 180 * imm
             imm = ""
             i += 1
             continue
@@ -436,13 +453,13 @@ SYN_FIELDS = {   # which args are field names, and the declared widths (mirror o
     "SLogImm": lambda a: [(a[1], 13)], "SGpDup": lambda a: [(a[2], 5), (a[3], 5)], "SImmLt": lambda a: [(a[0], a[1])],
     "SBitfield": lambda a: [(a[2], 6), (a[3], 6)], "SMovW": lambda a: [(a[1], 16), (a[2], 2)], "SSysReg": lambda a: [(a[0], 15)],
     "SImmConst": lambda a: [], "SVec": lambda a: [(a[2], a[3])], "SVecElem": lambda a: [(a[1], a[2]), (a[3], a[4])],
-    "SVShift": lambda a: [(a[2], 4), (a[3], 3)], "SGpPair": lambda a: [(a[1], 5)], "SSysOp": lambda a: [(a[0], 3), (a[1], 4), (a[2], 3)], "SImmRsub": lambda a: [(a[0], a[1])], "SFpImm": lambda a: [(a[0], 3), (a[1], 5)], "SVecList": lambda a: [(a[3], 5)], "SMemPostReg": lambda a: [(a[0], 5), (a[1], 5)], "SMemPostImm": lambda a: [(a[0], 5)],
+    "SVShift": lambda a: [(a[2], 4), (a[3], 3)], "SGpPair": lambda a: [(a[1], 5)], "SSysOp": lambda a: [(a[0], 3), (a[1], 4), (a[2], 3)], "SImmRsub": lambda a: [(a[0], a[1])], "SFpImm": lambda a: [(a[0], 3), (a[1], 5)], "SVecListElem": lambda a: [(a[2], 5), (a[3], a[4])], "SImmAff": lambda a: [(a[0], a[1])], "SVecList": lambda a: [(a[3], 5)], "SMemPostReg": lambda a: [(a[0], 5), (a[1], 5)], "SMemPostImm": lambda a: [(a[0], 5)],
 }
 FIELD_ARGPOS = {"SGp": [2], "SImmU": [0], "SImmS": [0], "SCond": [0], "SShift": [0, 1], "SExtReg": [1, 2, 3], "SAddImm": [0, 1], "SRel": [0],
                 "SMemBase": [0], "SMemOff": [0, 1], "SMemPair": [0, 1, 4, 5], "SMemIdx": [0, 1, 2, 3], "SMemLit": [0], "SLogImm": [1],
                 "SGpDup": [2, 3], "SImmLt": [0], "SBitfield": [2, 3], "SMovW": [1, 2], "SSysReg": [0],
                 "SImmConst": [], "SVec": [2], "SVecElem": [1, 3], "SVecList": [3], "SMemPostReg": [0, 1], "SMemPostImm": [0],
-                "SVShift": [2, 3], "SGpPair": [1], "SSysOp": [0, 1, 2], "SImmRsub": [0], "SFpImm": [0, 1]}
+                "SVShift": [2, 3], "SGpPair": [1], "SSysOp": [0, 1, 2], "SImmRsub": [0], "SFpImm": [0, 1], "SVecListElem": [2, 3], "SImmAff": [0]}
 
 
 def template_items(r):
@@ -523,10 +540,10 @@ def load_excluded():
 def classify(rows, excluded=None):
     """-> (supported list of dict(row, syn, items, fields), unsupported list of (row, reason))"""
     sup, unsup = [], []
-    exk = {(o["inst"], o["op"]) for o in (excluded or [])}
+    exk = {(o["inst"], o["op"], o.get("t_index")) for o in (excluded or [])}   # t_index (optional): the entry holds only for that value of the size field
     for r in rows:
         cats = set(r["cat"])
-        if (r["inst"], r["opstr"]) in exk and not r.get("revalidate"):
+        if ((r["inst"], r["opstr"], None) in exk or (r["inst"], r["opstr"], r.get("t_index")) in exk) and not r.get("revalidate"):
             r["excluded"] = True
             unsup.append((r, "DB row recorded as defective (corpus/C02/db_excluded.json): excluded from the model"))
             continue
@@ -571,9 +588,25 @@ def classify(rows, excluded=None):
 
 
 def numbering(sup):
+    """mnemonic / field numbers. They are kept STABLE across growth of the model (corpus/C02/stable_ids.json: the numbering of the snapshot other
+    properties' Coq files were written against - Labels/A64DbTie.v of C03 names mnemonic numbers); new names get the next free numbers."""
     mns = sorted({s["row"]["name"] for s in sup} | set(ALT_MNEMONIC.values()) | set(ALT_MNEMONIC.keys()))
     fns = sorted({f for s in sup for f, _ in s["fields"]})
-    return {n: i for i, n in enumerate(mns)}, {n: i for i, n in enumerate(fns)}
+    p = os.path.join(vlib.VERIF, "corpus", "C02", "stable_ids.json")
+    st = json.load(open(p)) if os.path.exists(p) else {"mnemonics": {}, "fields": {}}
+
+    def assign(names, fixed, key):
+        out = {n: fixed[n] for n in names if n in fixed}
+        nxt = max(list(fixed.values()) + [-1]) + 1
+        for n in names:
+            if n not in out:
+                out[n] = nxt
+                nxt += 1
+        return out
+    # field names with '*' are printed with 'x' in the header the stable file was read from
+    ff = dict(st["fields"])
+    fmap = assign(fns, {n: ff[n.replace("*", "x")] for n in fns if n.replace("*", "x") in ff}, "fields")
+    return assign(mns, st["mnemonics"], "mnemonics"), fmap
 
 
 def coq_bool(b):
@@ -587,7 +620,7 @@ def coq_z(v):
 def coq_syn(s, fid):
     args = []
     for k, a in enumerate(s[1:]):
-        if s[0] == "SVecList" and k == 0:
+        if s[0] in ("SVecList", "SVecListElem") and k == 0:
             args.append("%d%%nat" % a)
             continue
         if k in FIELD_ARGPOS[s[0]]:
@@ -647,7 +680,41 @@ def coq_text(sup, mn_id, fid, nchunk=100, exsup=()):
     L.append("(* every row's operand syntaxes are inverted by unbind1 and its hi register ids are SP/ZR: scope of C02_operands_recovered / C02_refusal_exact *)")
     L.append("Lemma rows_all_inv : forallb row_inv rows = true.")
     L.append("Proof. vm_compute. reflexivity. Qed.")
+    L += coq_examples(sup, mn_id)
     return "\n".join(L) + "\n"
+
+
+# non-vacuity: instruction-level test vectors (operands in the model's notation, expected words from llvm-mc 14, written down once)
+EXAMPLES = [
+    ("ex_add", "add", "[OGp true 1; OGp true 2; OGp true 3]", [0x8B030041]),
+    ("ex_ldr_scaled", "ldr", "[OGp true 1; OMem 3 None 0 0 8 0]", [0xF9400461]),
+    ("ex_ldr_falls_back_to_ldur", "ldr", "[OGp true 1; OMem 3 None 0 0 12 0]", [0xF840C061]),
+    ("ex_mov_sequence", "mov", "[OGp true 1; OImm 0 305419896]", [0xD28ACF01, 0x72A24681]),
+    ("ex_fmov_imm", "fmov", "[OVec 3 0 (-1) 1; OImm 256 4607182418800017408]", [0x1E6E1001]),
+    ("ex_fcvtzs_fixed_point", "fcvtzs", "[OGp false 1; OVec 2 0 (-1) 2; OImm 0 4]", [0x1E18F041]),
+    ("ex_ld2_lane", "ld2", "[OVec 4 1 1 1; OVec 4 1 1 2; OMem 3 None 0 0 0 0]", [0x0D600461]),
+    ("ex_cmp", "cmp", "[OGp true 2; OGp true 3]", [0xEB03005F]),
+    ("ex_refuses_bad_register", "add", "[OGp true 1; OGp true 40; OGp true 3]", None),
+    ("ex_refuses_mixed_lanes", "ld2", "[OVec 4 1 1 1; OVec 4 1 2 2; OMem 3 None 0 0 0 0]", None),
+    ("ex_refuses_fbits_33", "fcvtzs", "[OGp false 1; OVec 2 0 (-1) 2; OImm 0 33]", None),
+]
+
+
+def coq_examples(sup, mn_id):
+    """Examples (vm_compute) that the specification is not vacuous: it produces the architectural words for a few instructions of different
+    kinds (incl. the LDUR fall-back, the MOV sequence, an FP immediate, a lane list) and refuses invalid operands. Skipped for mnemonics
+    that have no supported row in the current database."""
+    L = ["(* ---- non-vacuity: the specification computes the architectural words (values cross-checked with llvm-mc 14) ---- *)",
+         "Definition ex_words (o : option (Z * list Z)) : option (list Z) := match o with Some (_, ws) => Some ws | None => None end."]
+    have = {e["row"]["name"] for e in sup}
+    for name, mn, ops, words in EXAMPLES:
+        if mn not in have or mn not in mn_id:
+            continue
+        want = "Some [%s]" % "; ".join(str(w) for w in words) if words is not None else "None"
+        L.append("Example %s : ex_words (spec_a64 rows alt_table mov_mn %d %s) = %s." % (name, mn_id[mn], ops, want))
+        L.append("Proof. vm_compute. reflexivity. Qed.")
+    # operands recovered / refusal exactness on a concrete row: the first ADD (shifted register) row
+    return L
 
 
 def coq_disjoint_text(sup):
@@ -666,6 +733,21 @@ def coq_disjoint_text(sup):
           "Lemma rows_pairwise : sigs_pairwise_ok overlap_pairs (map row_sig rows) = true.", "Proof. vm_compute. reflexivity. Qed.",
           "Lemma overlap_pairs_tight : overlap_tight overlap_pairs (map row_sig rows) = true.", "Proof. vm_compute. reflexivity. Qed.",
           "Lemma overlap_counted : Z.of_nat (length overlap_pairs) = overlap_count.", "Proof. vm_compute. reflexivity. Qed."]
+    byinst = {e["row"]["inst"]: e["row"]["idx"] for e in sup}
+    a, b_ = byinst.get("cmp Xn, Xm, {lsl|lsr|asr #n}"), byinst.get("subs Xd, Xn, Xm, {lsl|lsr|asr #n}")
+    c = byinst.get("add Xd, Xn, Xm, {lsl|lsr|asr #n}")
+    L.append("Definition row_by_id (i : Z) : option row := find (fun r => r_id r =? i) rows.")
+    if a is not None and b_ is not None:
+        L += ["(* non-vacuity of the 'recorded pair' alternative: CMP Xn, Xm and SUBS XZR, Xn, Xm are two rows with one word *)",
+              "Example overlap_is_real : match row_by_id %d, row_by_id %d with Some r1, Some r2 =>" % (a, b_),
+              "    spec_row r1 [OGp true 2; OGp true 3] = Some 3942842463 /\\ spec_row r2 [OGp true 63; OGp true 2; OGp true 3] = Some 3942842463 /\\",
+              "    in_overlap overlap_pairs (r_id r1) (r_id r2) = true | _, _ => False end.",
+              "Proof. vm_compute. repeat split; reflexivity. Qed."]
+    if a is not None and c is not None:
+        L += ["(* non-vacuity of the conflict alternative: ADD and CMP rows are separated by a fixed bit and are not a recorded pair *)",
+              "Example conflict_is_real : match row_by_id %d, row_by_id %d with Some r1, Some r2 =>" % (c, a),
+              "    sig_ok [] (row_sig r1) (row_sig r2) = true /\\ in_overlap overlap_pairs (r_id r1) (r_id r2) = false | _, _ => False end.",
+              "Proof. vm_compute. split; reflexivity. Qed."]
     return "\n".join(L) + "\n", ov
 
 
@@ -709,8 +791,8 @@ def build(repo=None):
     # each of them still disagrees with the assembler and llvm-mc (a stale exclusion is reported)
     exrows = [dict(json.loads(json.dumps(r)), revalidate=True) for r, _ in unsup if r.get("excluded")]
     exsup, _ = classify(exrows, excluded)
-    present = {(r["inst"], r["opstr"]) for r in rows}
-    excluded_applied = [o for o in excluded if (o["inst"], o["op"]) in present]
+    present = {(r["inst"], r["opstr"], None) for r in rows} | {(r["inst"], r["opstr"], r.get("t_index")) for r in rows}
+    excluded_applied = [o for o in excluded if (o["inst"], o["op"], o.get("t_index")) in present]
     # rows are tried in list order: DB order, except that the extended-register forms of ADD/SUB/CMP/CMN come after the
     # shifted-register forms of the same mnemonic (an assembler uses the extended form only when the shifted one cannot take
     # the operands: SP as Rd/Rn or an explicit extend)
